@@ -14,7 +14,9 @@ import (
 	"errors"
 	"fmt"
 	"os"
+	"strings"
 	"sync/atomic"
+	"syscall"
 	"time"
 
 	"verif/engine"
@@ -26,6 +28,10 @@ type Case struct {
 	Entry   string `json:"entry"`
 	Network bool   `json:"network"`
 	Origin  string `json:"origin,omitempty"`
+	// Reader: the reader kind the bytes were delivered through (family F; empty = *bytes.Reader)
+	Reader string `json:"reader,omitempty"`
+	// History: inputs decoded, in order, into the same destination before Hex (family D)
+	History []string `json:"history,omitempty"`
 }
 
 var (
@@ -77,29 +83,42 @@ func judgeRef(data []byte, network bool) verdict {
 	return verdict{}
 }
 
-// runOne executes one (bytes, entry, format) case and records a failure if any.
-func runOne(slot int, data []byte, ei int, network bool, v verdict, origin string) {
+// runOne executes one (bytes, entry, format[, reader kind]) case and records a failure if any.
+func runOne(slot int, data []byte, ei int, network bool, v verdict, origin string, rk *readerKind) {
 	e := entries[ei]
 	var err error
+	mk := func() Case {
+		c := Case{Hex: hex.EncodeToString(data), Entry: e.Name, Network: network, Origin: origin}
+		if rk != nil {
+			c.Reader = rk.Name
+		}
+		return c
+	}
+	where := "decode/" + e.Name
+	if rk != nil {
+		where += "/reader:" + rk.Name
+	}
 	wd.Begin(slot, func() string {
-		b, _ := json.Marshal(Case{hex.EncodeToString(data), e.Name, network, origin})
+		b, _ := json.Marshal(mk())
 		return string(b)
 	})
 	kind, frame, panicked := engine.Guard(func() {
-		err = e.Run(data, network)
+		if rk != nil {
+			err = e.RunR(rk.New(data), network)
+		} else {
+			err = e.Run(data, network)
+		}
 	})
 	wd.End(slot)
 	if panicked {
-		rep.FailLazy("decode/"+e.Name+"/panic/"+frame+"/"+kind, len(data), func() engine.Failure {
-			return engine.Failure{Detail: fmt.Sprintf("panic %s in %s decoding %x (network=%v)", kind, frame, clip(data), network),
-				Case: Case{hex.EncodeToString(data), e.Name, network, origin}}
+		rep.FailLazy(where+"/panic/"+frame+"/"+kind, len(data), func() engine.Failure {
+			return engine.Failure{Detail: fmt.Sprintf("panic %s in %s decoding %x (network=%v)", kind, frame, clip(data), network), Case: mk()}
 		})
 		return
 	}
 	if v.must && err == nil {
-		rep.FailLazy("decode/"+e.Name+"/accepted/"+v.reason, len(data), func() engine.Failure {
-			return engine.Failure{Detail: fmt.Sprintf("nil error for input %x (network=%v) which the reference reader classifies as %s", clip(data), network, v.reason),
-				Case: Case{hex.EncodeToString(data), e.Name, network, origin}}
+		rep.FailLazy(where+"/accepted/"+v.reason, len(data), func() engine.Failure {
+			return engine.Failure{Detail: fmt.Sprintf("nil error for input %x (network=%v) which the reference reader classifies as %s", clip(data), network, v.reason), Case: mk()}
 		})
 	}
 }
@@ -111,29 +130,43 @@ func clip(b []byte) []byte {
 	return b
 }
 
-func runAll(slot int, data []byte, origin string) {
+func runAll(slot int, data []byte, origin string, wide bool) {
 	for _, network := range []bool{false, true} {
-		v := judgeRef(data, network)
-		if v.skip {
-			atomic.AddInt64(&guarded, 1)
-			continue
-		}
-		if v.must {
-			atomic.AddInt64(&mustErr, 1)
-		} else {
-			atomic.AddInt64(&wellOK, 1)
-		}
-		n := 0
-		for ei := range entries {
-			if network && !entries[ei].Net || !network && !entries[ei].File {
-				continue
-			}
-			runOne(slot, data, ei, network, v, origin)
-			n++
-		}
-		rep.Eval(int64(n))
+		runFormat(slot, data, network, origin, wide)
 	}
 }
+
+// runFormat runs data through every entry point applicable to the format (the typed-destination
+// menu only when wide is set).
+func runFormat(slot int, data []byte, network bool, origin string, wide bool) {
+	v := judgeRef(data, network)
+	if v.skip {
+		atomic.AddInt64(&guarded, 1)
+		return
+	}
+	if v.must {
+		atomic.AddInt64(&mustErr, 1)
+	} else {
+		atomic.AddInt64(&wellOK, 1)
+	}
+	n := 0
+	for ei := range entries {
+		if network && !entries[ei].Net || !network && !entries[ei].File || entries[ei].Wide && !(wide && famE) {
+			continue
+		}
+		runOne(slot, data, ei, network, v, origin, nil)
+		n++
+	}
+	rep.Eval(int64(n))
+	if wide && famE {
+		atomic.AddInt64(&wideInputs, 1)
+	}
+}
+
+var wideInputs int64
+
+// families E and F ride on the inputs of A, B and G; C03_ONLY can leave them out
+var famE, famF = true, true
 
 var alphaA = []byte{0, 1, 2, 3, 4, 5, 6, 7, 8, 9, 10, 11, 12, 13, 0x7f, 0x80, 0xff, 0x1f, 0x78, 0x10}
 
@@ -146,7 +179,10 @@ func famA(L int) {
 		short = append(short, []byte{a})
 	}
 	for _, s := range short {
-		runAll(0, s, "famA")
+		runAll(0, s, "famA", true)
+		for _, network := range []bool{false, true} {
+			runReaders(0, s, network, "famA", readerKinds)
+		}
 	}
 	var total int64
 	engine.ParallelFor(k*k, func(slot, i int) {
@@ -155,7 +191,12 @@ func famA(L int) {
 		var rec func()
 		n := int64(0)
 		rec = func() {
-			runAll(slot, buf, "famA")
+			runAll(slot, buf, "famA", len(buf) <= 4)
+			if len(buf) < L {
+				for _, network := range []bool{false, true} {
+					runReaders(slot, buf, network, "famA", readerKinds)
+				}
+			}
 			n++
 			if len(buf) == L {
 				return
@@ -291,11 +332,17 @@ func famB(nFull, nRed int, deadline time.Time) {
 				n := int64(0)
 				// quick: blind byte substitutions only for the small (full-alphabet) documents;
 				// truncations and structural overwrites always
-				mutants(doc, network, rep.Thorough() || g.name == "full", func(m []byte, how string) {
+				full := g.name == "full"
+				each := func(m []byte, how string) {
 					n++
 					mm := append([]byte(nil), m...)
-					runAll(slot, mm, "famB:"+how)
-				})
+					runAll(slot, mm, "famB:"+how, full)
+					if full && (how == "trunc" || how == "intact") {
+						runReaders(slot, mm, network, "famB:"+how, readerKinds)
+					}
+				}
+				each(doc, "intact")
+				mutants(doc, network, rep.Thorough() || full, each)
 				atomic.AddInt64(&muts, n)
 			})
 		if !st.Complete {
@@ -355,7 +402,7 @@ func famC(n int) {
 						continue
 					}
 					if nonAllocating[e.Name] && (tree.Tag == refnbt.Compound || !compoundOnly[e.Name]) {
-						runOne(slot, m, ei, network, ver, "famC:overflow-probe")
+						runOne(slot, m, ei, network, ver, "famC:overflow-probe", nil)
 						atomic.AddInt64(&cases, 1)
 					}
 				}
@@ -371,7 +418,7 @@ func famC(n int) {
 
 func main() {
 	rep = engine.NewReport("C03")
-	rep.Rule = "family A: every byte string of length <= L over a 20-symbol alphabet (all tag ids, first unknown id, sign/limit bytes, compression heads); family B: every truncation, 6-symbol substitution and structural-field overwrite of every generated well-formed document; each string x every entry point x {file,network}. distinct = distinct input strings (enumeration is injective per family); non-trivial = all (every string reaches the decoder)"
+	rep.Rule = "family A: every byte string of length <= L over a 20-symbol alphabet (all tag ids, first unknown id, sign/limit bytes, compression heads); family B: every truncation, 6-symbol substitution and structural-field overwrite of every generated well-formed document; family C: overflow-probe lengths in every 4-byte length field, on the non-allocating entry points; family D: every 2-call decode history (first intact or cut by one byte; second intact, every truncation, every length field -1/+1/-1) over a menu of container values x a menu of fresh, used and pre-populated destinations; family E: families A and B(full alphabet) also on a menu of typed destinations; family F: short strings of A and truncations of B(full alphabet) through a menu of reader kinds; family G: size-class documents (payload crossing 256/512/4096/8192-byte boundaries) intact and truncated around every multiple of 512. each string x every entry point x {file,network}. distinct = distinct input strings (enumeration is injective per family); non-trivial = all (every string reaches the decoder)"
 	wd = engine.NewWatchdog(engine.Workers()+1, 20*time.Second, func(desc string) {
 		var c Case
 		json.Unmarshal([]byte(desc), &c)
@@ -390,9 +437,42 @@ func main() {
 		L, nFull, nRed = 5, 2, 4
 		deadline = time.Now().Add(13 * time.Minute)
 	}
-	famA(L)
-	famB(nFull, nRed, deadline)
-	famC(3)
+	famE, famF = only("E"), only("F")
+	histLens := []int{0, 1, 3, 4}
+	if rep.Thorough() {
+		histLens = []int{0, 1, 2, 3, 4, 5, 8, 9}
+	}
+	cpu := map[string]float64{}
+	timed := func(name string, f func()) {
+		if !only(name) {
+			return
+		}
+		t0 := cpuSeconds()
+		f()
+		cpu[name] = float64(int((cpuSeconds()-t0)*10)) / 10
+	}
+	timed("A", func() { famA(L) })
+	timed("B", func() { famB(nFull, nRed, deadline) })
+	timed("C", func() { famC(3) })
+	timed("D", func() { famD(histLens) })
+	timed("G", func() { famG() })
+	// processor seconds (user+system, all threads) spent per family; E and F ride inside A, B and G
+	rep.Extra("cpu_seconds_by_family", cpu)
+	nw := 0
+	for _, e := range entries {
+		if e.Wide {
+			nw++
+		}
+	}
+	rep.Extra("famE_typed_destinations", nw)
+	rep.Count("famE_inputs_x_format_run_on_typed_destinations", wideInputs)
+	var rks []string
+	for _, k := range readerKinds {
+		rks = append(rks, k.Name)
+	}
+	rep.Extra("famF_reader_kinds", rks)
+	rep.Count("famF_inputs_x_format", famFInputs)
+	rep.Count("famF_cases", famFCases)
 	rep.Extra("L", L)
 	rep.Extra("nodes_full_alphabet", nFull)
 	rep.Extra("nodes_reduced_alphabet", nRed)
@@ -401,9 +481,33 @@ func main() {
 	rep.Count("inputs_that_must_error", mustErr)
 	rep.Count("inputs_without_error_obligation", wellOK)
 	rep.AddTraces(rep.Evaluations)
-	rep.Sample(Case{"0a00000b0001610000000100", "any", false, "example"})
+	rep.Sample(Case{Hex: "0a00000b0001610000000100", Entry: "any", Origin: "example"})
 	rep.Assume("declared positive array/list lengths above 65536 are not executed (over-allocation guard); the reference NBT reader (ref/refnbt) is trusted and pinned by its self-test")
 	rep.Finish()
+}
+
+// only reports whether family f is selected. C03_ONLY (a comma-free list of family letters, e.g. "DE") is a
+// development aid: a run restricted by it is reported as capped, never as exhaustive.
+func only(f string) bool {
+	sel := os.Getenv("C03_ONLY")
+	if sel == "" {
+		return true
+	}
+	if !capNoted {
+		capNoted = true
+		rep.Cap("C03_ONLY=%s: only the named families were run", sel)
+	}
+	return strings.Contains(sel, f)
+}
+
+var capNoted bool
+
+func cpuSeconds() float64 {
+	var ru syscall.Rusage
+	if syscall.Getrusage(syscall.RUSAGE_SELF, &ru) != nil {
+		return 0
+	}
+	return float64(ru.Utime.Sec+ru.Stime.Sec) + float64(ru.Utime.Usec+ru.Stime.Usec)/1e6
 }
 
 // selftest pins the reference reader against hand-made vectors.
@@ -434,12 +538,23 @@ func replay() {
 		engine.HarnessError("bad case: %v", err)
 	}
 	data, _ := hex.DecodeString(c.Hex)
+	if strings.HasPrefix(c.Entry, "hist:") {
+		replayHistory(c, data)
+		return
+	}
+	var rk *readerKind
+	if c.Reader != "" {
+		if rk = findReader(c.Reader); rk == nil {
+			fmt.Fprintln(os.Stderr, "unknown reader kind", c.Reader)
+			os.Exit(2)
+		}
+	}
 	for ei, e := range entries {
 		if e.Name == c.Entry {
 			v := judgeRef(data, c.Network)
 			fmt.Printf("replaying %s on %x network=%v; reference verdict must-error=%v %s\n", c.Entry, clip(data), c.Network, v.must, v.reason)
 			for i := 0; i < 5; i++ {
-				runOne(0, data, ei, c.Network, v, c.Origin)
+				runOne(0, data, ei, c.Network, v, c.Origin, rk)
 			}
 			rep.Eval(5)
 			rep.Finish()
@@ -447,4 +562,31 @@ func replay() {
 	}
 	fmt.Fprintln(os.Stderr, "unknown entry", c.Entry)
 	os.Exit(2)
+}
+
+func replayHistory(c Case, last []byte) {
+	dst := findDest(strings.TrimPrefix(c.Entry, "hist:"), strings.HasPrefix(c.Origin, "famD:field-a"))
+	if dst == nil {
+		fmt.Fprintln(os.Stderr, "unknown history destination", c.Entry)
+		os.Exit(2)
+	}
+	var steps [][]byte
+	for _, h := range c.History {
+		b, err := hex.DecodeString(h)
+		if err != nil {
+			engine.HarnessError("bad history element: %v", err)
+		}
+		steps = append(steps, b)
+	}
+	steps = append(steps, last)
+	var vs []verdict
+	for _, s := range steps {
+		vs = append(vs, judgeRef(s, c.Network))
+	}
+	fmt.Printf("replaying a %d-call history on %s (network=%v): %s\n", len(steps), c.Entry, c.Network, histString(steps))
+	for i := 0; i < 5; i++ {
+		runHistory(0, dst, steps, vs, c.Network, c.Origin)
+	}
+	rep.Eval(int64(5 * len(steps)))
+	rep.Finish()
 }
